@@ -3,6 +3,11 @@
 set -e
 cd "$(dirname "$0")"
 export CARGO_NET_OFFLINE=true
+# start from clean build state: a copy of this directory may have been taken in the middle of a build
+# (stale coq/.Makefile.d, half-written .vo files), so nothing compiled is reused
+find coq \( -name '*.vo' -o -name '*.vos' -o -name '*.vok' -o -name '*.glob' -o -name '.*.aux' \) -delete 2>/dev/null || true
+rm -f coq/.Makefile.d coq/Makefile coq/Makefile.conf coq/.lia.cache coq/.nia.cache
+rm -rf ocaml/_build ocaml/extracted ocaml/gv-model .work
 ./mkproject.sh
 [ -f translate/tables.py ] && python3 translate/tables.py /repo coq/Gen || true
 ( cd coq && coq_makefile -f _CoqProject -o Makefile >/dev/null && timeout 7200 make -j16 2>&1 | tail -n 30 )
